@@ -1,0 +1,8 @@
+//go:build verif
+
+package ovmf
+
+// UnacceptedMemRangesForVerif exposes unacceptedMemRanges (verification harness only).
+func UnacceptedMemRangesForVerif(privateResources []GuestPhysicalRegion, ramResources []GuestPhysicalRegion) []GuestPhysicalRegion {
+	return unacceptedMemRanges(privateResources, ramResources)
+}
